@@ -7,6 +7,14 @@ model of the code and with the documented formula ((DD-DR-RD+RR)/RR, DD/DR-1, DD
 total/(W1*W2) resp. total/(W^2/2)); RedshiftData.from_corrfuncs(...).data/.samples are checked
 against w_sp/sqrt(dz^2 w_ss w_pp) in squared form on the implementation's own CorrData values;
 HistData.normalised() / RedshiftData.normalised() against the model and "integral = 1".
+(c) call histories: the same comparisons after sequences of public calls on the live containers - every read-only
+method once per run (get_array, sample_patch_sum, bins/patches indexing and iteration, to_dict, to_file/from_file, ==,
+is_compatible, repr/attributes, +, *, sum(), pickling, deepcopy, sample(), from_corrfuncs(), error/covariance/
+correlation, to_files, normalised(), each also followed by a use of the derived object) and random sequences of them
+interleaved with PatchedCounts.set_patch_pair; the result must satisfy the Coq model of the state the constructor and
+the set_patch_pair calls define (Model/Estimators.v: run_calls, c04_hist_case; Props: C04_sample_after_history), be
+bit-identical to the result on a freshly built equal container, and the stored arrays (snapshots taken by copy) must
+be bit-unchanged after every single call.
 (b) symbolic traces of landy_szalay, davis_peebles, NormalisedCounts.sample_patch_sum,
 RedshiftData.from_corrdata, HistData.normalised, RedshiftData.normalised are re-proved equal to
 the documented formulas by `ring` (numerator / denominator / radicand separately) on every run.
@@ -29,10 +37,14 @@ ASSUMPTIONS = [
     "implementation's non-finite output is accepted and nothing else is compared",
     "combinations of pair counts for which the code defines no estimator (rr without dr) are compared only as 'raises'",
     "RedshiftData.normalised(target=...) (a scipy fit) is not covered",
+    "call histories consist of the public methods listed in _jk_common.CF_OBS / SD_OBS with valid arguments and of "
+    "set_patch_pair with in-range patch indices and one value per bin; arrays handed out by the containers are only "
+    "read by the harness, never written; a call that raises is recorded and skipped",
 ]
 RULE = ("cases = (subset of dr/rd/rr, auto|cross, bins, patches, all array entries) for estimators; triple of CorrFuncs for "
         "n(z); (container kind, binning, data, samples) for normalisation; distinct by all entries; non-trivial when every "
-        "denominator is non-zero so that the full formula is compared (for 'raises' cases: always)")
+        "denominator is non-zero so that the full formula is compared (for 'raises' cases: always); history cases are "
+        "additionally distinct by the list of calls made before the compared call")
 
 
 def est_defined(sub):
@@ -85,6 +97,42 @@ def h_norm(ctx):
         if c & 1:
             ctx.disagree("c04_norm_case", case, dict(code=c, replay=replay))
     return h
+
+
+def h_hist(ctx):
+    base = h_corr(ctx)
+
+    def h(c, case, replay):
+        if c & 8:
+            ctx.fail("c04-state-after-history", "after the calls [%s] the arrays stored in the CorrFunc are not the ones its "
+                     "constructor arguments and set_patch_pair calls define (Model: run_calls)" % calls_text(replay["history"]),
+                     replay, case=case)
+        if c & 7:
+            base(c & 7, case, replay)
+    return h
+
+
+def calls_text(hist):
+    return ", ".join((op.get("t", "") + ":" if op.get("t") else "") + jk.op_label(op) for op in hist)
+
+
+def noter(ctx, replay, what):
+    """reactions to what a history runner observes"""
+    def note(event, idx, op, detail):
+        label = jk.op_label(op)
+        if event == "raised":
+            ctx.bump("hist-call-raised/%s" % label)
+            if ctx.extra.setdefault("hist_call_raised_examples", {}).get(label) is None:
+                ctx.extra["hist_call_raised_examples"][label] = detail[:200]
+        elif event == "changed":
+            ctx.fail("c04-stored-state-changed-by:%s" % label, "the arrays stored in the %s differ bit-wise from what its constructor "
+                     "arguments%s define after call #%d (%s) of the history [%s]: a read-only public method stores into the container"
+                     % (what, " and set_patch_pair calls" if what == "CorrFunc" else "", idx, label, calls_text(replay["history"])), replay)
+        elif event == "twin-changed":
+            ctx.fail("c04-argument-changed-by:%s" % label, "the arrays stored in the second %s (passed as argument to ==, "
+                     "is_compatible, +, -) differ bit-wise from its constructor arguments after call #%d (%s) of the history [%s]"
+                     % (what, idx, label, calls_text(replay["history"])), replay)
+    return note
 
 
 # ----------------------------------------------------------------------------- single cases
@@ -153,6 +201,198 @@ def case_norm(ctx, batch, spec):
     norm_case_obj(ctx, batch, obj, spec["hist"], dict(kind="norm", spec=spec))
 
 
+# ----------------------------------------------------------------------------- cases after a call history
+def case_corr_hist(ctx, batch, spec, hist, mode="direct"):
+    """CorrFunc.sample() after the calls of `hist` (mode 'via_file': of the CorrFunc written to and re-read from a
+    file after the calls) against the model state, against a fresh equal CorrFunc, and the stored arrays"""
+    import os
+    from yaw import CorrFunc
+    edges, kinds = spec["edges"], spec["kinds"]
+    replay = dict(kind="corr-hist", spec=spec, history=hist, mode=mode, raised=None)
+    env = dict(cf=jk.build_corrfunc(edges, kinds), twin=jk.build_corrfunc(edges, kinds), dir=ctx.workdir)
+    run = jk.CfHistory(env, edges, kinds, noter(ctx, replay, "CorrFunc"))
+    for idx, op in enumerate(hist):
+        run.call(idx, op)
+        ctx.bump("hist-call/%s" % jk.op_label(op))
+    final = run.final()
+    subject = env["cf"]
+    if mode == "via_file":
+        path = os.path.join(ctx.workdir, "subject.hdf")
+        try:
+            env["cf"].to_file(path)
+            subject = CorrFunc.from_file(path)
+        except Exception:  # noqa: BLE001
+            ctx.bump("hist-via-file-refused")
+            replay["mode"] = mode = "direct"
+        finally:
+            if os.path.exists(path):
+                os.remove(path)
+    try:
+        cd = jk.quiet(subject.sample)
+        impl = "(Some (%s, %s))" % (jk.oqlist(cd.data), jk.oqmat(cd.samples))
+        full = jk.all_finite(cd.data) and jk.all_finite(cd.samples)
+    except Exception as e:  # noqa: BLE001
+        cd, impl, full = None, "None", True
+        replay["raised"] = type(e).__name__
+    run.check(len(hist), dict(op="cf.sample"))
+    try:
+        fresh = jk.quiet(jk.build_corrfunc(edges, final).sample)
+    except Exception:  # noqa: BLE001
+        fresh = None
+    if (cd is None) != (fresh is None):
+        ctx.fail("c04-sample-raises-depends-on-call-history", "CorrFunc.sample() %s after the calls [%s] but %s on a freshly built "
+                 "CorrFunc with the same stored pair counts" % ("raises" if cd is None else "returns", calls_text(hist),
+                                                                "raises" if fresh is None else "returns"), replay)
+    elif cd is not None and not (jk.same_bits(cd.data, fresh.data) and jk.same_bits(cd.samples, fresh.samples)):
+        ctx.fail("c04-sample-depends-on-call-history", "CorrFunc.sample() after the calls [%s]%s differs from sample() of a freshly "
+                 "built CorrFunc with the same pair counts and weights: the estimate is not a function of the pair counts"
+                 % (calls_text(hist), " (written to and re-read from a file)" if mode == "via_file" else ""), replay)
+    batch.add(jk.hist_case_term(spec["N"], kinds, run.done, jk.cf_state_plain(subject), impl), h_hist(ctx), replay)
+    sub = jk.subset_of(spec)
+    ctx.count(key=("corr-hist", repr(spec), repr(hist), mode), nontrivial=full,
+              kind="corr-hist/%s/%s/%s%s" % ("auto" if kinds["dd"]["auto"] else "cross", "+".join(sub), mode,
+                                             "/raises" if cd is None else ""))
+    if cd is not None:
+        ctx.sample(dict(kind="corr-hist", subset=sub, history=calls_text(hist), mode=mode, data=np.asarray(cd.data).tolist()), limit=7)
+
+
+def case_nz_hist(ctx, batch, spec, hist):
+    """RedshiftData.from_corrfuncs(cross, ref, unk) after calls on the three CorrFuncs (op['t'] = which one),
+    against the formula on the CorrData of freshly built equal CorrFuncs"""
+    replay = dict(kind="nz-hist", spec=spec, history=hist)
+    names = [t for t in ("cross", "ref", "unk") if spec[t] is not None]
+    envs = {t: dict(cf=jk.build_corrfunc(spec[t]["edges"], spec[t]["kinds"]), twin=jk.build_corrfunc(spec[t]["edges"], spec[t]["kinds"]),
+                    dir=ctx.workdir) for t in names}
+    runs = {t: jk.CfHistory(envs[t], spec[t]["edges"], spec[t]["kinds"], noter(ctx, replay, "CorrFunc")) for t in names}
+
+    def cfs(which):
+        return [envs[t][which] if t in envs else None for t in ("cross", "ref", "unk")]
+
+    def all3(env, op):
+        jk.RedshiftData.from_corrfuncs(*cfs("cf"))
+    for idx, op in enumerate(hist):
+        runs[op["t"]].call(idx, op, all3 if op["op"] == "nz.from_corrfuncs3" else None)
+        for t in names:
+            if t != op["t"]:
+                runs[t].check(idx, op)
+        ctx.bump("hist-call/%s" % jk.op_label(op))
+    try:
+        nz = jk.quiet(jk.RedshiftData.from_corrfuncs, *cfs("cf"))
+    except Exception as e:  # noqa: BLE001
+        nz, err = None, e
+    for t in names:
+        runs[t].check(len(hist), dict(op="nz.from_corrfuncs3"))
+    fresh = [None if spec[t] is None else jk.build_corrfunc(spec[t]["edges"], runs[t].final()) for t in ("cross", "ref", "unk")]
+    try:
+        fnz = jk.quiet(jk.RedshiftData.from_corrfuncs, *fresh)
+        fcd = [None if c is None else jk.quiet(c.sample) for c in fresh]
+    except Exception:  # noqa: BLE001
+        ctx.count(key=("nz-hist-raised", repr(spec)), kind="nz-hist/fresh-raised")
+        if nz is not None:
+            ctx.fail("c04-nz-raises-depends-on-call-history", "from_corrfuncs returns after the calls [%s] but raises on freshly built "
+                     "equal CorrFuncs" % calls_text(hist), replay)
+        return
+    if nz is None:
+        ctx.count(key=("nz-hist-raised", repr(spec), repr(hist)), kind="nz-hist/raised")
+        ctx.fail("c04-raises:%s" % type(err).__name__, "RedshiftData.from_corrfuncs raised %s after the calls [%s]: %s"
+                 % (type(err).__name__, calls_text(hist), err), replay)
+        return
+    if not (jk.same_bits(nz.data, fnz.data) and jk.same_bits(nz.samples, fnz.samples)):
+        ctx.fail("c04-nz-depends-on-call-history", "RedshiftData.from_corrfuncs after the calls [%s] differs from the result on freshly "
+                 "built CorrFuncs with the same pair counts and weights" % calls_text(hist), replay)
+    batch.add(jk.nz_term(list(fresh[0].binning.dz), fcd[0], fcd[1], fcd[2], nz), h_nz(ctx), replay)
+    ctx.count(key=("nz-hist", repr(spec), repr(hist)), nontrivial=jk.all_finite(nz.data),
+              kind="nz-hist/%s%s" % ("ref" if fresh[1] is not None else "", "+unk" if fresh[2] is not None else ""))
+
+
+def case_norm_hist(ctx, batch, spec, hist):
+    """.normalised() after calls on the HistData / RedshiftData, against the model on the constructor arguments"""
+    from yaw.binning import Binning
+    cls = jk.HistData if spec["hist"] else jk.RedshiftData
+    what = "HistData" if spec["hist"] else "RedshiftData"
+    replay = dict(kind="norm-hist", spec=spec, history=hist)
+
+    def mk():
+        return cls(Binning(spec["edges"], closed="right"), np.array(spec["data"], dtype=float), np.array(spec["samples"], dtype=float))
+    env = dict(sd=mk(), twin=mk(), dir=ctx.workdir)
+    fresh = mk()
+    check = jk.run_sd_history(env, hist, noter(ctx, replay, what))
+    for op in hist:
+        ctx.bump("hist-call/%s" % jk.op_label(op))
+    try:
+        fout = jk.quiet(fresh.normalised)
+    except Exception:  # noqa: BLE001
+        ctx.count(key=("norm-hist-raised", repr(spec)), kind="norm-hist/fresh-raised")
+        return
+    try:
+        out = jk.quiet(env["sd"].normalised)
+    except Exception as e:  # noqa: BLE001
+        ctx.fail("c04-raises:%s" % type(e).__name__, "%s.normalised() raised %s after the calls [%s]: %s"
+                 % (what, type(e).__name__, calls_text(hist), e), replay)
+        return
+    check(len(hist), dict(op="sd.normalised"))
+    if not (jk.same_bits(out.data, fout.data) and jk.same_bits(out.samples, fout.samples)):
+        ctx.fail("c04-normalised-depends-on-call-history", "%s.normalised() after the calls [%s] differs from normalised() of a freshly "
+                 "built container with the same data and samples" % (what, calls_text(hist)), replay)
+    term = "c04_norm_case %s %s %s %s %s %s %s" % (
+        fq.b(spec["hist"]), fq.qlist(fresh.binning.edges), fq.qlist(fresh.binning.dz), jk.oqlist(fresh.data), jk.oqmat(fresh.samples),
+        jk.oqlist(out.data), jk.oqmat(out.samples))
+    batch.add(term, h_norm(ctx), replay)
+    with np.errstate(all="ignore"):
+        norm = float(np.nansum(np.asarray(fresh.binning.dz) * np.asarray(fresh.data, dtype=float)))
+    ctx.count(key=("norm-hist", repr(spec), repr(hist)), nontrivial=norm != 0.0, kind="norm-hist/%s" % ("hist" if spec["hist"] else "nz"))
+
+
+def gen_nz_history(rng, spec, lo=1, hi=6):
+    names = [t for t in ("cross", "ref", "unk") if spec[t] is not None]
+    out = []
+    for _ in range(rng.randint(lo, hi)):
+        t = rng.choice(names)
+        if rng.random() < 0.15:
+            out.append(dict(op="nz.from_corrfuncs3", t=t))
+        else:
+            out.append(dict(jk.gen_cf_op(rng, spec[t], allow_set=rng.random() < 0.3), t=t))
+    return out
+
+
+def histories(ctx, b_hist, b_nzh, b_normh):
+    rng = ctx.rng
+    full = ("dr", "rd", "rr")
+    # every observer (and every use of what it returns) once, on auto and cross containers with all four pair counts
+    for auto in (False, True):
+        spec = gen_corr(rng, full, auto, small=True)
+        for hist in jk.cf_single_op_histories(rng, spec):
+            case_corr_hist(ctx, b_hist, spec, hist)
+    for hist_kind in (True, False):
+        spec = gen_norm(rng, hist_kind)
+        B = len(spec["edges"]) - 1
+        for hist in jk.sd_single_op_histories(rng, B):
+            case_norm_hist(ctx, b_normh, spec, hist)
+    spec = jk.gen_nz_spec(rng, True)
+    while spec["ref"] is None or spec["unk"] is None:
+        spec = jk.gen_nz_spec(rng, True)
+    for t in ("cross", "ref", "unk"):
+        for name in ("nc.get_array", "cf.to_dict", "cf.sample", "nc.sample_patch_sum", "cf.patches", "nc.mul"):
+            then = "get_array" if name in jk.CF_DERIVING else None
+            case_nz_hist(ctx, b_nzh, spec, [dict(jk.gen_cf_op(rng, spec[t], name=name, then=then), t=t)])
+    case_nz_hist(ctx, b_nzh, spec, [dict(op="nz.from_corrfuncs3", t="cross")] * 2)
+    # random sequences, interleaved with set_patch_pair; a quarter of them sampled through a file written afterwards
+    small = not ctx.quick()
+    for _ in range(ctx.n(40, 500)):
+        sub = rng.choice(jk.SUBSETS)
+        spec = gen_corr(rng, sub, rng.random() < 0.5, small=True if ctx.quick() else rng.random() < 0.7)
+        hist = jk.gen_cf_history(rng, spec, allow_set=rng.random() < 0.5)
+        case_corr_hist(ctx, b_hist, spec, hist, "via_file" if rng.random() < 0.25 else "direct")
+    for _ in range(ctx.n(20, 250)):
+        spec = jk.gen_nz_spec(rng, ctx.quick() or (small and rng.random() < 0.7))
+        case_nz_hist(ctx, b_nzh, spec, gen_nz_history(rng, spec))
+    for _ in range(ctx.n(20, 250)):
+        for hist_kind in (True, False):
+            spec = gen_norm(rng, hist_kind)
+            B = len(spec["edges"]) - 1
+            case_norm_hist(ctx, b_normh, spec, [jk.gen_sd_op(rng, B) for _ in range(rng.randint(1, 5))])
+
+
 # ----------------------------------------------------------------------------- generators
 def gen_corr(rng, sub, auto, small=False):
     B, N = jk.pick_shape(rng, small)
@@ -218,8 +458,13 @@ def run(ctx):
         h = jk.hist_from_catalog(ctx, "n%d" % i, edges, rows, True)
         norm_case_obj(ctx, b_norm, h, True, dict(kind="norm", spec=dict(hist=True, edges=edges, data=jk.tolist(h.data),
                                                                          samples=jk.tolist(h.samples), origin="from_catalog")))
-    ctx.log("implementation runs done; evaluating %d cases in Coq" % sum(len(b.items) for b in (b_corr, b_nz, b_norm)))
-    for b in (b_corr, b_nz, b_norm):
+    b_hist = jk.Batch(ctx, "Cases_C04_hist", shard=25)
+    b_nzh = jk.Batch(ctx, "Cases_C04_nz_hist", shard=40)
+    b_normh = jk.Batch(ctx, "Cases_C04_norm_hist", shard=80)
+    histories(ctx, b_hist, b_nzh, b_normh)
+    batches = (b_corr, b_nz, b_norm, b_hist, b_nzh, b_normh)
+    ctx.log("implementation runs done; evaluating %d cases in Coq" % sum(len(b.items) for b in batches))
+    for b in batches:
         b.run()
         ctx.log("%s evaluated" % b.name)
 
@@ -234,5 +479,11 @@ def replay(ctx, body):
         case_nz(ctx, b, bn, spec)
     elif kind == "norm" and spec.get("samples") is not None:
         case_norm(ctx, b, spec)
+    elif kind == "corr-hist":
+        case_corr_hist(ctx, b, spec, r["history"], r.get("mode", "direct"))
+    elif kind == "nz-hist":
+        case_nz_hist(ctx, b, spec, r["history"])
+    elif kind == "norm-hist":
+        case_norm_hist(ctx, bn, spec, r["history"])
     b.run()
     bn.run()
